@@ -73,32 +73,101 @@ func specPairAlign(recs []samRec, ref string) (string, string, bool) {
 	return rr.String(), qq.String(), true
 }
 
+type pairOut struct {
+	refRow, qryRow, refName, qryName string
+	idx                              int64
+}
+
 func evalPairAlign(c *core.Ctx, recs []samRec, ref string, omitIns bool) (refRow, qryRow, refName, qryName string, idx int64, err error) {
+	outs, err := evalPairAlignBatch(c, [][]samRec{recs}, []int64{5}, ref, omitIns)
+	if err != nil {
+		return "", "", "", "", 0, err
+	}
+	o := outs[0]
+	return o.refRow, o.qryRow, o.refName, o.qryName, o.idx, nil
+}
+
+// evalPairAlignBatch feeds the groups through ONE activation of blockToPairwiseAlignment (one pool worker) and reads
+// the emitted pairs after the whole batch.
+func evalPairAlignBatch(c *core.Ctx, groups [][]samRec, idxs []int64, ref string, omitIns bool) ([]pairOut, error) {
 	fn := c.LookupFunc("pkg/sam", "blockToPairwiseAlignment")
 	if fn == nil {
-		return "", "", "", "", 0, fmt.Errorf("UNRESOLVED sam.blockToPairwiseAlignment")
+		return nil, fmt.Errorf("UNRESOLVED sam.blockToPairwiseAlignment")
 	}
 	ev := newEval(c)
 	installBiogo(ev)
 	out := &eval.ChanVal{Name: "out"}
 	errs := &eval.ChanVal{Name: "err"}
-	_, e := ev.CallFunc(fn, &eval.ChanVal{Name: "in", Feed: []eval.Value{samGroupValue(c, recs, 5)}}, out, errs, bytesVal(ref), omitIns)
+	var feed []eval.Value
+	for i, g := range groups {
+		feed = append(feed, samGroupValue(c, g, idxs[i]))
+	}
+	_, e := ev.CallFunc(fn, &eval.ChanVal{Name: "in", Feed: feed}, out, errs, bytesVal(ref), omitIns)
 	if e != nil {
-		return "", "", "", "", 0, e
+		return nil, e
 	}
-	if len(errs.Sent) > 0 || len(out.Sent) != 1 {
-		return "", "", "", "", 0, fmt.Errorf("%d errors, %d pairs", len(errs.Sent), len(out.Sent))
+	if len(errs.Sent) > 0 || len(out.Sent) != len(groups) {
+		return nil, fmt.Errorf("%d errors, %d pairs for %d queries", len(errs.Sent), len(out.Sent), len(groups))
 	}
-	p := out.Sent[0].(*eval.StructVal)
-	rr, ok1 := bytesStr(p.F["ref"])
-	qq, ok2 := bytesStr(p.F["query"])
-	if !ok1 || !ok2 {
-		return "", "", "", "", 0, fmt.Errorf("non-constant rows")
+	var res []pairOut
+	for _, v := range out.Sent {
+		p, ok := v.(*eval.StructVal)
+		if !ok {
+			return nil, fmt.Errorf("unexpected item %s", eval.Show(v))
+		}
+		rr, ok1 := bytesStr(p.F["ref"])
+		qq, ok2 := bytesStr(p.F["query"])
+		if !ok1 || !ok2 {
+			return nil, fmt.Errorf("non-constant rows")
+		}
+		rn, _ := p.F["refname"].(eval.Str)
+		qn, _ := p.F["queryname"].(eval.Str)
+		ix, _ := linConst(p.F["idx"])
+		res = append(res, pairOut{rr, qq, rn.Const(), qn.Const(), ix})
 	}
-	rn, _ := p.F["refname"].(eval.Str)
-	qn, _ := p.F["queryname"].(eval.Str)
-	ix, _ := linConst(p.F["idx"])
-	return rr, qq, rn.Const(), qn.Const(), ix, nil
+	return res, nil
+}
+
+// samWorkerBatches: batches of queries for one worker activation - single- and multi-record queries at different
+// start positions, with and without insertions, in both orders.
+func samWorkerBatches(ref string) [][][]samRec {
+	a := []samRec{{Name: "a", Pos: 3, Cigar: "3M", Seq: "TTG"}}
+	b := []samRec{{Name: "b", Pos: 0, Cigar: "2M1I1M", Seq: "ACTG"}, {Name: "b", Pos: 4, Cigar: "3M", Seq: "TGA"}}
+	d := []samRec{{Name: "d", Pos: 1, Cigar: "2M", Seq: "CG"}, {Name: "d", Pos: 3, Cigar: "1M2I2M", Seq: "TCCTG"}, {Name: "d", Pos: 6, Cigar: "1M", Seq: "A"}}
+	e := []samRec{{Name: "e", Pos: 0, Cigar: "7M", Seq: "ACGTTGA"}}
+	f := []samRec{{Name: "f", Pos: 2, Cigar: "1M1D2M", Seq: "GTG"}, {Name: "f", Pos: 0, Cigar: "1M1I1M", Seq: "AGC"}}
+	return [][][]samRec{{a, b}, {b, a}, {e, d, b}, {d, f, a, b}, {f, d}, {a, a, b, b}}
+}
+
+// c02WorkerBatches: what the pairwise worker emits for a query does not depend on the queries it handled before.
+func c02WorkerBatches(c *core.Ctx, rule string) {
+	ref := "ACGTTGA"
+	pos := funcPos(c, "pkg/sam", "blockToPairwiseAlignment")
+	var bad []string
+	for _, omitIns := range []bool{false, true} {
+		for _, batch := range samWorkerBatches(ref) {
+			idxs := make([]int64, len(batch))
+			for i := range idxs {
+				idxs[i] = int64(i)
+			}
+			got, err := evalPairAlignBatch(c, batch, idxs, ref, omitIns)
+			if err != nil {
+				c.Und(rule+"/no-state-between-queries", pos, "cannot evaluate a batch: %v", err)
+				return
+			}
+			for i, g := range batch {
+				alone, err := evalPairAlignBatch(c, [][]samRec{g}, []int64{int64(i)}, ref, omitIns)
+				if err != nil {
+					c.Und(rule+"/no-state-between-queries", pos, "cannot evaluate %s: %v", recString(g), err)
+					return
+				}
+				if got[i] != alone[0] {
+					bad = append(bad, fmt.Sprintf("query %s as item %d of a batch through one worker (skip-insertions=%v) gives %q/%q; handled alone it gives %q/%q", recString(g), i, omitIns, got[i].refRow, got[i].qryRow, alone[0].refRow, alone[0].qryRow))
+				}
+			}
+		}
+	}
+	c.Ob(rule+"/no-state-between-queries", len(bad) == 0, pos, "%s", first(bad, 2))
 }
 
 func C02(c *core.Ctx) {
@@ -123,7 +192,7 @@ func c02Writer(c *core.Ctx) {
 	}
 	var bad []string
 	for _, omitRef := range []bool{false, true} {
-		for _, w := range []int{-1, 3} {
+		for _, w := range []int{-1, 3, 4, 8, 10} { // widths that do not divide the row, divide it, equal it and exceed it
 			ev := newEval(c)
 			writes := captureWrites(ev)
 			pair := absValue(pairT, "p", eval.K(0)).(*eval.StructVal)
@@ -154,6 +223,101 @@ func c02Writer(c *core.Ctx) {
 		}
 	}
 	c.Ob("R6/writePairwiseAlignment/stdout-layout", len(bad) == 0, fn.Pos(), "%s", first(bad, 3))
+	// the directory branch: one file per query, named after it, holding the same text
+	bad = nil
+	for _, omitRef := range []bool{false, true} {
+		for _, w := range []int{-1, 4, 8} {
+			ev := newEval(c)
+			files := map[string]*strings.Builder{}
+			var order []string
+			closed := map[string]bool{}
+			ev.Extern["os.MkdirAll"] = func(ev *eval.Evaluator, pos token.Pos, recv eval.Value, a []eval.Value) eval.Value { return eval.Nil{} }
+			ev.Extern["os.Create"] = func(ev *eval.Evaluator, pos token.Pos, recv eval.Value, a []eval.Value) eval.Value {
+				name, _ := a[0].(eval.Str)
+				files[name.Const()] = &strings.Builder{}
+				order = append(order, name.Const())
+				return eval.Tuple{&eval.Handle{Dyn: "*os.File", Tag: name.Const()}, eval.Nil{}}
+			}
+			write := func(recv eval.Value, v eval.Value) eval.Value {
+				h, ok := unref(recv).(*eval.Handle)
+				st, ok2 := v.(eval.Str)
+				if !ok || !ok2 || files[h.Tag] == nil || closed[h.Tag] || !st.IsConst() {
+					ev.Failf(token.NoPos, "write of %s to %s", eval.Show(v), eval.Show(recv))
+				}
+				files[h.Tag].WriteString(st.Const())
+				return eval.Tuple{eval.K(int64(len(st.Const()))), eval.Nil{}}
+			}
+			ev.Extern["(*os.File).WriteString"] = func(ev *eval.Evaluator, pos token.Pos, recv eval.Value, a []eval.Value) eval.Value {
+				return write(recv, a[0])
+			}
+			ev.Extern["io.WriteString"] = func(ev *eval.Evaluator, pos token.Pos, recv eval.Value, a []eval.Value) eval.Value {
+				return write(a[0], a[1])
+			}
+			for _, name := range []string{"fmt.Fprint", "fmt.Fprintln"} {
+				nl := name == "fmt.Fprintln"
+				ev.Extern[name] = func(ev *eval.Evaluator, pos token.Pos, recv eval.Value, a []eval.Value) eval.Value {
+					if o, ok := unref(a[0]).(eval.Opaque); ok && strings.Contains(o.Why, "Stderr") {
+						return eval.Tuple{eval.K(0), eval.Nil{}}
+					}
+					line := eval.S("")
+					for i, x := range a[1:] {
+						if i > 0 && nl {
+							line = line.Concat(eval.S(" "))
+						}
+						st, _ := x.(eval.Str)
+						line = line.Concat(st)
+					}
+					if nl {
+						line = line.Concat(eval.S("\n"))
+					}
+					return write(a[0], line)
+				}
+			}
+			ev.Extern["(*os.File).Close"] = func(ev *eval.Evaluator, pos token.Pos, recv eval.Value, a []eval.Value) eval.Value {
+				if h, ok := unref(recv).(*eval.Handle); ok {
+					closed[h.Tag] = true
+				}
+				return eval.Nil{}
+			}
+			mk := func(name string, idx int64, r, q string) eval.Value {
+				pair := absValue(pairT, "p", eval.K(0)).(*eval.StructVal)
+				pair.F["ref"] = bytesVal(r)
+				pair.F["query"] = bytesVal(q)
+				pair.F["refname"] = eval.S("REF")
+				pair.F["queryname"] = eval.S(name)
+				pair.F["idx"] = eval.K(idx)
+				return pair
+			}
+			done := &eval.ChanVal{Name: "done"}
+			errs := &eval.ChanVal{Name: "err"}
+			_, err := ev.CallFunc(fn, eval.S("outdir"), eval.K(int64(w)), &eval.ChanVal{Name: "in", Feed: []eval.Value{mk("q/1", 0, "AC-GTTGA", "ACGTNNNN"), mk("q2", 1, "ACGTTGA-", "ACGTTGAC")}}, done, errs, omitRef)
+			if err != nil {
+				bad = append(bad, "undecided: "+err.Error())
+				continue
+			}
+			want := map[string]string{}
+			for _, pr := range [][3]string{{"outdir/q_1.fasta", "q/1", "AC-GTTGA|ACGTNNNN"}, {"outdir/q2.fasta", "q2", "ACGTTGA-|ACGTTGAC"}} {
+				rows := strings.Split(pr[2], "|")
+				t := ""
+				if !omitRef {
+					t += ">REF\n" + wrapSpec(rows[0], w)
+				}
+				want[pr[0]] = t + ">" + pr[1] + "\n" + wrapSpec(rows[1], w)
+			}
+			for name, text := range want {
+				got, ok := files[name]
+				if !ok {
+					bad = append(bad, fmt.Sprintf("omit-reference=%v wrap=%d: no file %s is created (created: %v)", omitRef, w, name, order))
+				} else if got.String() != text || !closed[name] {
+					bad = append(bad, fmt.Sprintf("omit-reference=%v wrap=%d: %s holds %q (closed=%v), want %q", omitRef, w, name, got.String(), closed[name], text))
+				}
+			}
+			if len(files) != len(want) || len(done.Sent) != 1 || len(errs.Sent) != 0 {
+				bad = append(bad, fmt.Sprintf("omit-reference=%v wrap=%d: files %v, %d completion signals, %d errors", omitRef, w, order, len(done.Sent), len(errs.Sent)))
+			}
+		}
+	}
+	c.Ob("R6/writePairwiseAlignment/one-file-per-query", len(bad) == 0, fn.Pos(), "%s", first(bad, 3))
 }
 
 // c02Rows: the (reference row, query row) pairs of one- and two-record queries against an independent
@@ -201,6 +365,7 @@ func c02Rows(c *core.Ctx) {
 			break
 		}
 	}
+	c02WorkerBatches(c, "R2/blockToPairwiseAlignment")
 	pos := funcPos(c, "pkg/sam", "blockToPairwiseAlignment")
 	c.Count("record_groups_evaluated", n)
 	c.Ob("R2/single-record-queries", len(badSingle) == 0, pos, "%s", first(badSingle, 3))
